@@ -205,6 +205,41 @@ func check(t h.TB, c Case) {
 		dstf.Decls = append(dstf.Decls, d)
 		touched[m.From], touched[m.To] = true, true
 	}
+	// a script that leaves one top-level name twice in a package is not a valid history
+	declared := map[string]map[string]bool{}
+	for _, fn := range fnames {
+		path := filePkg[fn]
+		if declared[path] == nil {
+			declared[path] = map[string]bool{}
+		}
+		for _, d := range trees[fn].Decls {
+			var ns []string
+			switch d := d.(type) {
+			case *dst.FuncDecl:
+				if d.Recv == nil {
+					ns = append(ns, d.Name.Name)
+				}
+			case *dst.GenDecl:
+				for _, sp := range d.Specs {
+					switch sp := sp.(type) {
+					case *dst.TypeSpec:
+						ns = append(ns, sp.Name.Name)
+					case *dst.ValueSpec:
+						for _, id := range sp.Names {
+							ns = append(ns, id.Name)
+						}
+					}
+				}
+			}
+			for _, n := range ns {
+				if declared[path][n] {
+					h.Exclude("move script declares a name twice in one package")
+					return
+				}
+				declared[path][n] = true
+			}
+		}
+	}
 	// restore every touched file with import management, then re-type-check the packages
 	var rr resolver.RestorerResolver = simple.New(p.Names)
 	if c.RestRes == 1 {
@@ -228,11 +263,17 @@ func check(t h.TB, c Case) {
 		// cut removes the original and copies only cross packages; duplicates are a generator matter
 		ck, err := p.CheckSources(imp, path, files)
 		if err != nil {
-			if strings.Contains(err.Error(), "redeclared") {
-				h.Exclude("move script declares a name twice in one package")
-				return
-			}
 			h.Fail(t, sub, c, "package %s does not type-check after the moves: %v\n%s", path, err, dump(files))
+		}
+		for _, af := range ck.Files {
+			// coverage: an import aliased to the package name of another import of the same file
+			for _, a := range af.Imports {
+				for _, b := range af.Imports {
+					if a != b && a.Name != nil && p.Names[strings.Trim(b.Path.Value, "\"")] == a.Name.Name {
+						h.Label("after-move:alias-equals-name-of-other-import")
+					}
+				}
+			}
 		}
 		for fn, af := range ck.Files {
 			for _, d := range af.Decls {
